@@ -224,7 +224,7 @@ static size_t fill(char *b, size_t n, int kind)
 }
 static int timing(void)
 {
-	size_t sizes[3] = {1u << 18, 1u << 19, 1u << 20};
+	size_t sizes[3] = {1u << 20, 1u << 21, 1u << 22};
 	int kind, s, rep;
 	for (kind = 0; kind <= 6; kind++) {
 		printf("time kind=%d", kind);
@@ -232,7 +232,7 @@ static int timing(void)
 			char *b = malloc(sizes[s] + 128);
 			size_t n = fill(b, sizes[s], kind);
 			double best = 1e9;
-			for (rep = 0; rep < 5; rep++) {
+			for (rep = 0; rep < 3; rep++) {
 				struct JsonContext *ctx = json_new_context(NULL, 0);
 				double t0, t1;
 				json_set_options(ctx, 1);
